@@ -11,8 +11,9 @@ R.macro("in_no_table", ["n", "c"],
         "not (c.socket_fileno in n.socket_peers and n.socket_peers[c.socket_fileno] == c)")
 
 R.contract("Node.remove_peer_connection", params={"self": "Node", "conn": "PeerConnection", "disconnect_reason": "int"},
-           ghost={"kc2": "str"},
-           ensures=[("gone-from-every-table", "in_no_table(self, conn)"),
+           ghost={"kc2": "str", "gp": "Peer"},
+           ensures=[("a-peer-left-without-a-connection-has-a-disconnect-reason-if-it-had-one-or-had-a-connection", "implies(is_none(gp.connection) and (old(not is_none(gp.disconnect_reason)) or old(not is_none(gp.connection))), not is_none(gp.disconnect_reason))"),
+                    ("gone-from-every-table", "in_no_table(self, conn)"),
                     ("pending-answers-dropped", "not (conn.host_identity in self._peer_waiting_answer)"),
                     ("own-link-cleared-with-reason-and-time-or-taken-over",
                      "implies(not is_none(old(peer_of(self, conn))) and old(some(peer_of(self, conn)).connection) == conn, "
@@ -46,7 +47,7 @@ R.contract("Node.remove_peer_connection", params={"self": "Node", "conn": "PeerC
                      "*Peer.connection", "*Peer.last_disconnect", "*Peer.disconnect_reason", "*Peer.last_connect", "*Event.flag",
                      "*list:Peer"],
            props=["C13", "C12", "C19", "C09", "C07"])
-R.contracts["Node.remove_peer_connection"].ghost_bind = {"Node._assign_peer_connection": {"k": "conn.ident", "gp": "some(peer)"}}
+R.contracts["Node.remove_peer_connection"].ghost_bind = {"Node._assign_peer_connection": {"k": "conn.ident", "gp": ["some(peer)", "gp"]}}
 R.model("Event", fields={"g_owner": "Any"})
 
 
@@ -136,6 +137,7 @@ R.loop("Node.remove_peer_connection", 0,       # take-over: another ready connec
                      "not is_none(LINK))").replace("LINK", _LINK)),
                    ("link-empty-or-taken-over-by-a-ready-connection-of-the-same-peer", _TAKEN),
                    ("tables-already-cleaned", "in_no_table(self, conn)"),
+                   ("a-peer-left-without-a-connection-has-a-disconnect-reason-if-it-had-one-or-had-a-connection", "implies(is_none(gp.connection) and (old(not is_none(gp.disconnect_reason)) or old(not is_none(gp.connection))), not is_none(gp.disconnect_reason))"),
                    ("reason-and-time-kept-while-the-link-is-empty",
                     "implies(is_none(some(peer).connection), some(peer).disconnect_reason == reason0 and "
                     "some(peer).last_disconnect == ld0)"),
@@ -181,7 +183,9 @@ R.macro("tables_unchanged", ["n"], "unchanged(n.connections) and unchanged(n.pee
                                    "and unchanged(n._half_ready_connections)")
 R.contract("Node._add_peer_connection",
            params={"self": "Node", "conn": "PeerConnection", "peer_socket": "Socket", "proto": "int"}, returns="Opt[str]",
-           ensures=[("refused-while-stopping",
+           ghost={"gp": "Peer"},
+           ensures=[("a-peer-left-without-a-connection-has-a-disconnect-reason-if-it-had-one-or-had-a-connection", "implies(is_none(gp.connection) and (old(not is_none(gp.disconnect_reason)) or old(not is_none(gp.connection))), not is_none(gp.disconnect_reason))"),
+                    ("refused-while-stopping",
                      "implies(old(self._stopping), is_none(result) and peer_socket.closed and tables_unchanged(self))"),
                     ("refused-connection-is-released",
                      "implies(is_none(result), peer_socket.closed and tables_unchanged(self) and workers_stopped(conn))"),
@@ -202,6 +206,7 @@ R.contract("Node._add_peer_connection",
                      "some(peer_of(self, conn)).connection == conn and is_none(some(peer_of(self, conn)).disconnect_reason), "
                      "conn.ident in self._half_ready_connections and self._half_ready_connections[conn.ident] == conn))")],
            raises=[Raise("RuntimeError", "True", "may")],
+           ensures_exc={"RuntimeError": [("a-peer-left-without-a-connection-has-a-disconnect-reason-if-it-had-one-or-had-a-connection", "implies(is_none(gp.connection) and (old(not is_none(gp.disconnect_reason)) or old(not is_none(gp.connection))), not is_none(gp.disconnect_reason))")]},
            modifies=["peer_socket.closed", "conn.ident", "conn.socket_fileno", "conn.socket_proto", "conn.message_handler",
                      "conn.state", "conn._read_thread.stopped", "conn._write_thread.stopped",
                      "dict:self.connections", "dict:self.peer_sockets", "dict:self.socket_peers",
@@ -210,7 +215,8 @@ R.contract("Node._add_peer_connection",
 
 R.contract("Node._assign_peer_connection", params={"self": "Node", "conn": "PeerConnection"},
            ghost={"k": "str", "gp": "Peer"},
-           ensures=[("other-half-ready-entries-untouched",
+           ensures=[("a-peer-left-without-a-connection-has-a-disconnect-reason-if-it-had-one-or-had-a-connection", "implies(is_none(gp.connection) and (old(not is_none(gp.disconnect_reason)) or old(not is_none(gp.connection))), not is_none(gp.disconnect_reason))"),
+                    ("other-half-ready-entries-untouched",
                      "implies(k != conn.ident, (k in self._half_ready_connections) == old(k in self._half_ready_connections))"),
                     ("other-peers-untouched",
                      "implies(not (conn.host_identity != '' and conn.host_identity in self.peers and "
@@ -270,10 +276,11 @@ R.loop("Node._flag_connection_as_ready", 2,
 
 del R.contracts["Node.close_connection_socket"]
 R.contract("Node.close_connection_socket", params={"self": "Node", "conn": "PeerConnection", "disconnect_reason": "int"},
-           ghost={"gs": "Socket", "kc2": "str"},
+           ghost={"gs": "Socket", "kc2": "str", "gp": "Peer"},
            ghost_modifies=["conn.g_close_calls", "conn.g_close_reason"],
            ghost_ensures=["conn.g_close_calls == old(conn.g_close_calls) + 1", "conn.g_close_reason == disconnect_reason"],
-           ensures=[("nothing-sent", "nothing_sent(conn)"),
+           ensures=[("a-peer-left-without-a-connection-has-a-disconnect-reason-if-it-had-one-or-had-a-connection", "implies(is_none(gp.connection) and (old(not is_none(gp.disconnect_reason)) or old(not is_none(gp.connection))), not is_none(gp.disconnect_reason))"),
+                    ("nothing-sent", "nothing_sent(conn)"),
                     ("gone-from-every-table", "in_no_table(self, conn)"),
                     ("registered-socket-closed-and-workers-stopped",
                      "implies(old(conn.ident in self.peer_sockets), old(self.peer_sockets[conn.ident]).closed and "
@@ -296,10 +303,12 @@ R.contract("Node.close_connection_socket", params={"self": "Node", "conn": "Peer
 R.model("Node", fields={"g_dialled": "Seq[Peer]"})
 R.inline_fn("Peer.disconnected_since")
 R.contract("Node._connect_to_peer", trusted=True, params={"self": "Node", "peer": "Peer"},
+           ghost={"gp": "Peer"},
+           ensures=[("a-peer-left-without-a-connection-has-a-disconnect-reason-if-it-had-one-or-had-a-connection", "implies(is_none(gp.connection) and (old(not is_none(gp.disconnect_reason)) or old(not is_none(gp.connection))), not is_none(gp.disconnect_reason))")],
            raises=[Raise("Exception", "True", "may")],
            ghost_modifies=["self.g_dialled"],
            ghost_ensures=["self.g_dialled == old(self.g_dialled) + [peer]"],
-           ensures_exc={"Exception": ["self.g_dialled == old(self.g_dialled) + [peer]"]},
+           ensures_exc={"Exception": ["self.g_dialled == old(self.g_dialled) + [peer]", ("a-peer-left-without-a-connection-has-a-disconnect-reason-if-it-had-one-or-had-a-connection", "implies(is_none(gp.connection) and (old(not is_none(gp.disconnect_reason)) or old(not is_none(gp.connection))), not is_none(gp.disconnect_reason))")]},
            modifies=["peer.connection", "peer.disconnect_reason", "peer.last_connect", "peer.last_disconnect",
                      "dict:self.connections", "dict:self.peer_sockets", "dict:self.socket_peers",
                      "dict:self._half_ready_connections", "*MsgQueue.g_put", "*SequenceGenerator._sequence", "*Event.flag",
@@ -329,8 +338,13 @@ R.loop("Node._reconnect_peers", 0,
              ("due-peer-is-dialled", "implies(prev(dial_guard(peer, int(clock()))), "
                                      "len(self.g_dialled) == prev(len(self.g_dialled)) + 1)"),
              ("dialled-peer-was-due", "implies(len(self.g_dialled) == prev(len(self.g_dialled)) + 1, "
-                                      "due_before(peer, int(clock())))")],
+                                      "due_before(peer, int(clock())))"),
+             ("a-peer-that-still-has-no-connection-keeps-its-disconnect-reason",
+              "implies(is_none(peer.connection) and prev(not is_none(peer.disconnect_reason)), "
+              "not is_none(peer.disconnect_reason))")],
        modifies=["self.g_dialled", "*Peer.connection", "*Peer.disconnect_reason", "*Peer.last_connect", "*Peer.last_disconnect",
                  "dict:self.connections", "dict:self.peer_sockets", "dict:self.socket_peers",
                  "dict:self._half_ready_connections", "*MsgQueue.g_put", "*SequenceGenerator._sequence", "*Event.flag",
                  "*list:Peer", "dict:self._peer_waiting_answer"])
+
+R.contracts["Node._reconnect_peers"].ghost_bind = {"Node._connect_to_peer": {"gp": "peer"}}
